@@ -179,6 +179,7 @@ def showRes : Res → String
   | .err .depth => "Edepth"
   | .err .get => "Eget"
   | .err (.fn c) => s!"Efn{c}"
+  | .err .aborted => "Eaborted"
   | .panic => "PANIC"
 
 def showPath (p : List Ref) : String :=
